@@ -392,7 +392,7 @@ class Engine:
     def need_hierarchy(self):
         if not self.path.hier:
             self.path.hier = True
-            for a in _v.hierarchy_axioms():
+            for a in _v.hierarchy_axioms(with_rare=getattr(self, 'rare_oserrors', False)):
                 self.assume(a)
 
     def check(self, f, timeout_ms=None):
